@@ -125,6 +125,7 @@ type dmGen struct {
 	qc         *dmQualCtx
 	res        *dmResInfo
 	entFamily  *dmEntInfo
+	sAtt       *dmAttachment
 	outside    bool   // code is generated outside the contract declaring the types (use factories)
 	inContract string // name of the contract being generated ("" for scripts)
 	rareKnown  bool   // this program may contain shapes of known defects
@@ -177,7 +178,10 @@ func (g *dmGen) primType() *dmTy {
 }
 
 func (g *dmGen) keyType() *dmTy {
-	return dmPick(g, []*dmTy{dmTString, dmTInt, dmTString, dmTInt8, dmTBool, dmTAddress})
+	if len(g.enums) > 0 && g.chance(1, 6) {
+		return dmPick(g, g.enums).t
+	}
+	return dmPick(g, []*dmTy{dmTString, dmTInt, dmTString, dmTInt8, dmTBool, dmTAddress, dmTUInt64})
 }
 
 // valueType: a random non-resource type.
@@ -284,6 +288,9 @@ func (g *dmGen) keyLit(t *dmTy, i int) string {
 		return "false"
 	case dmKAddress:
 		return fmt.Sprintf("Address(0x%d)", i+1)
+	case dmKEnum:
+		e := g.enumOf(t)
+		return t.String() + "." + e.cases[i%len(e.cases)]
 	case dmKInt:
 		if t.name == "Int" {
 			return dmItoa(i)
@@ -906,7 +913,7 @@ func dmEquatable(t *dmTy) bool {
 }
 
 func (g *dmGen) boolKind(s *dmScope, d int) string {
-	switch g.r.Intn(14) {
+	switch g.r.Intn(15) {
 	case 0, 1, 2:
 		t := dmPick(g, dmNumTypes)
 		if vs := s.varsKind(dmKInt); len(vs) > 0 && g.chance(3, 4) {
@@ -968,6 +975,24 @@ func (g *dmGen) boolKind(s *dmScope, d int) string {
 	case 12:
 		g.feat("string-functions")
 		return g.atom(s, dmTString) + ".contains(" + g.strLit() + ")"
+	case 13:
+		// run-time types
+		t := g.valueType(1)
+		u := g.valueType(1)
+		if t.k == dmKFun || u.k == dmKFun {
+			break
+		}
+		g.feat("metatype")
+		switch g.r.Intn(4) {
+		case 0:
+			return "(Type<" + t.String() + ">() == Type<" + u.String() + ">())"
+		case 1:
+			return "Type<" + t.String() + ">().isSubtype(of: Type<" + u.String() + ">())"
+		case 2:
+			return "(OptionalType(Type<" + t.String() + ">()) == Type<" + t.String() + "?>())"
+		default:
+			return "(" + g.exact(s, t, d-1) + ").isInstance(Type<" + u.String() + ">())"
+		}
 	}
 	return dmPick(g, []string{"true", "false", "true"})
 }
@@ -1031,6 +1056,15 @@ func (g *dmGen) optExpr(s *dmScope, t *dmTy, d int) string {
 		return "(" + g.boolExpr(s, d-1) + " ? " + g.optOperand(s, t, d-1) + " : nil)"
 	case 3, 4:
 		// failable cast
+		if e.k == dmKFun && g.chance(1, 2) {
+			// dynamic function subtyping
+			g.feat("function-cast")
+			u := e
+			if g.chance(1, 2) {
+				u = dmFun(g.primType(), g.primType())
+			}
+			return "((" + g.closure(s, u, 1) + " as AnyStruct) as? " + e.String() + ")"
+		}
 		if e.k != dmKFun && e.k != dmKAnyStruct {
 			g.feat("failable-cast")
 			vs := s.find(func(v *dmVr) bool { return (v.t.k == dmKAnyStruct || v.t.k == dmKIface) && !v.t.isRes() })
@@ -1117,7 +1151,7 @@ func (g *dmGen) optChain(s *dmScope, t *dmTy, d int) string {
 				}
 			}
 			for _, m := range c.allMethods() {
-				if m.ret != nil && !m.ret.isRes() && dmSub(flat(m.ret), t) && g.argsOK(m) && (m.access == "" || inner.k != dmKRef) && (!s.ctx.view || m.view) {
+				if m.ret != nil && !m.ret.isRes() && dmSub(dmOpt(m.ret), t) && g.argsOK(m) && (m.access == "" || inner.k != dmKRef) && (!s.ctx.view || m.view) {
 					cs = append(cs, cand{g.call(s, v.name+"?", m, d)})
 				}
 			}
